@@ -171,6 +171,11 @@ pub fn run_buf(buf: String, args: Vec<String>, cmd_mode: bool, skip_pcap: bool) 
     let err = vm.run();
     if let Err(err) = err {
         eprintln!("{}", err);
+        // The filters cannot run on the state that the failed program left
+        // behind (a full operand stack after a stack overflow, for instance)
+        if filter_mode {
+            return;
+        }
     }
 
     if cmd_mode && !filter_mode {
